@@ -51,6 +51,32 @@ func confAddrPath(a ssa.Value, varName string) (string, bool) {
 		path = append([]string{f.Name()}, path...)
 		a = fa.X
 	}
+	// a helper that is handed (a pointer into) the configuration: follow the parameter to the
+	// caller's value, prepending the path it was taken at
+	for i := 0; i < 3; i++ {
+		p, isParam := a.(*ssa.Parameter)
+		if !isParam {
+			break
+		}
+		var up ssa.Value = rv(a)
+		if up == a && theCtx != nil {
+			up = theCtx.upOne(a)
+		}
+		if up == a || up == nil {
+			break
+		}
+		_ = p
+		a = up
+		for {
+			fa, ok := a.(*ssa.FieldAddr)
+			if !ok {
+				break
+			}
+			_, f, _ := fieldOfAddr(fa)
+			path = append([]string{f.Name()}, path...)
+			a = fa.X
+		}
+	}
 	g, ok := a.(*ssa.Global)
 	if !ok || g.Name() != varName {
 		return "", false
@@ -100,7 +126,7 @@ func c18FatalGuards(c *Ctx) {
 		reach := false
 		var path []int
 		for _, ret := range rets {
-			if ok, p := reachAvoiding(load, ret.Block(), GOr(r.notA, r.notB)); ok {
+			if ok, p := reachAvoiding(load, ret.Block(), GOr(r.notA, r.notB)); ok && reachInstrAvoiding(load, ret, GOr(r.notA, r.notB)) {
 				reach, path = true, p
 			}
 		}
